@@ -40,8 +40,11 @@ def gen_stream(rng, tid, scope):
         reg_at[0] = 0 if False else 1
     maxdepth = 0
     info = {"regions": []}
+    big = rng.random() < 0.3     # some streams have gaps of seconds (differences beyond 2^31 ns)
     for i in range(1, nbase + 1):
         clock += rng.choice([0, 0, 1, 2, 10])
+        if big and rng.random() < 0.05:
+            clock += rng.choice([2 ** 31 + 5, 3 * 10 ** 9, 2 ** 32 + 7, 5 * 10 ** 9])
         evs.append(body(clock))
         if i in reg_at:
             # region: events whose proper place is d events back
